@@ -403,18 +403,15 @@ func fixTransferEncoding(requestMethod string, header Header) ([]string, error) 
 
 	delete(header, "Transfer-Encoding")
 
-	encodings := strings.Split(raw[0], ",")
+	// all Transfer-Encoding field lines form one list (RFC 7230 section 3.2.2)
+	encodings := strings.Split(strings.Join(raw, ","), ",")
 	te := make([]string, 0, len(encodings))
 	// TODO: Even though we only support "identity" and "chunked"
 	// encodings, the loop below is designed with foresight. One
 	// invariant that must be maintained is that, if present,
 	// chunked encoding must always come first.
 	for _, encoding := range encodings {
-		encoding = strings.ToLower(strings.TrimSpace(encoding))
-		// "identity" encoding is not recorded
-		if encoding == "identity" {
-			break
-		}
+		encoding = strings.ToLower(strings.Trim(encoding, " \t"))
 		if encoding != "chunked" {
 			return nil, &badStringError{"unsupported transfer encoding", encoding}
 		}
@@ -458,15 +455,25 @@ func fixLength(isResponse bool, status int, requestMethod string, header Header,
 	}
 
 	// Logic based on Content-Length
-	cl := strings.TrimSpace(header.GetDirect("Content-Length"))
-	if cl != "" {
+	if cls := header["Content-Length"]; len(cls) > 0 {
+		// RFC 7230 section 3.3.3 (4): differing or invalid values make the framing invalid
+		cl := strings.Trim(cls[0], " \t")
+		for _, other := range cls[1:] {
+			if strings.Trim(other, " \t") != cl {
+				return -1, &badStringError{"conflicting Content-Length", strings.Join(cls, ",")}
+			}
+		}
+		if cl == "" {
+			return -1, &badStringError{"bad Content-Length", cl}
+		}
 		n, err := parseContentLength(cl)
 		if err != nil {
 			return -1, err
 		}
+		if len(cls) > 1 {
+			header["Content-Length"] = cls[:1]
+		}
 		return n, nil
-	} else {
-		header.Del("Content-Length")
 	}
 
 	if !isResponse && requestMethod == MethodGet {
@@ -698,14 +705,15 @@ func (bl bodyLocked) Read(p []byte) (n int, err error) {
 // parseContentLength trims whitespace from s and returns -1 if no value
 // is set, or the value if it's >= 0.
 func parseContentLength(cl string) (int64, error) {
-	cl = strings.TrimSpace(cl)
+	cl = strings.Trim(cl, " \t")
 	if cl == "" {
 		return -1, nil
 	}
-	n, err := strconv.ParseInt(cl, 10, 64)
-	if err != nil || n < 0 {
+	// 1*DIGIT: no sign, no other white space
+	n, err := strconv.ParseUint(cl, 10, 63)
+	if err != nil {
 		return 0, &badStringError{"bad Content-Length", cl}
 	}
-	return n, nil
+	return int64(n), nil
 
 }
